@@ -1175,3 +1175,40 @@ _add(Combined("combo:taylor_hood_tri+coeff_const_tri+two_forms_tri",
               ["taylor_hood_tri", "coeff_const_tri", "two_forms_tri"]))
 _add(Combined("combo:expr_p1_tri_2pts+expr_facet_tri+expr_rank1_tet",
               ["expr_p1_tri_2pts", "expr_facet_tri", "expr_rank1_tet"]))
+
+
+# ---- geometric quantities (cell / facet measures, edge lengths, Jacobians) ---------------------
+def _geo(name, cell, integrand, measure, tags=("kern", "geo")):
+    return _add(
+        Request(
+            name,
+            "forms",
+            [
+                _mesh(cell),
+                f'el = basix.ufl.element("Lagrange", "{cell}", 1)',
+                "V = ufl.FunctionSpace(mesh, el)",
+                "v = ufl.TestFunction(V)",
+                "f = ufl.Coefficient(V)",
+                f"L = ({integrand}) * {measure}",
+                "objs = [L]",
+            ],
+            tags=tags,
+        )
+    )
+
+
+_geo("cell_geometry_tri", "triangle",
+     "ufl.CellVolume(mesh) * ufl.Circumradius(mesh) * ufl.CellDiameter(mesh) * ufl.MinCellEdgeLength(mesh) "
+     "* ufl.MaxCellEdgeLength(mesh) * f * v", "ufl.dx")
+_geo("facet_geometry_tri", "triangle",
+     "ufl.FacetArea(mesh) * ufl.CellVolume(mesh) * ufl.FacetNormal(mesh)[0] * f * v", "ufl.ds",
+     tags=("kern", "geo", "facet"))
+_geo("facet_geometry_tet", "tetrahedron",
+     "ufl.FacetArea(mesh) * ufl.MinFacetEdgeLength(mesh) * ufl.MaxFacetEdgeLength(mesh) "
+     "* ufl.FacetNormal(mesh)[2] * f * v", "ufl.ds", tags=("kern", "geo", "facet"))
+_geo("facet_geometry_tet_interior", "tetrahedron",
+     "ufl.avg(ufl.FacetArea(mesh)) * ufl.avg(ufl.CellVolume(mesh)) * ufl.jump(f) * ufl.FacetNormal(mesh)('+')[1] * v('-')",
+     "ufl.dS", tags=("kern", "geo", "facet", "interior"))
+_geo("jacobians_hex", "hexahedron",
+     "ufl.SpatialCoordinate(mesh)[2] * ufl.JacobianInverse(mesh)[0, 1] * ufl.JacobianDeterminant(mesh) * f * v",
+     "ufl.dx", tags=("kern", "geo", "slow"))
